@@ -23,6 +23,7 @@ import drv_sunearth
 import drv_geocentric
 import drv_api
 import drv_growth
+import drv_tableheap
 
 YMIN, YMAX = -4712, 6000
 
@@ -265,6 +266,22 @@ def _heap_shards(kind, tier, seed, parts):
                  dict(kind=kind, depth=dsim, simulate=nsim, seed=seed, part=i, parts=sp), "Trace_ObjHeap", cfg)
            for i in range(sp)]
     return sh
+
+
+def _table_shards(kind, tier, seed):
+    cfg = "Trace_TableHeap_%s.cfg" % kind
+    d, parts = (2, 2) if tier == "quick" else (3, 8)
+    sh = [Shard("tab_%s_d%d_%02d" % (kind, d, i), drv_tableheap.gen_tableheap,
+                dict(kind=kind, depth=d, simulate=0, seed=0, part=i, parts=parts), "Trace_TableHeap", cfg) for i in range(parts)]
+    nsim, dsim, sp = (400, 6, 1) if tier == "quick" else (6000, 8, 4)
+    sh += [Shard("tab_%s_sim_%02d" % (kind, i), drv_tableheap.gen_tableheap,
+                 dict(kind=kind, depth=dsim, simulate=nsim, seed=seed, part=i, parts=sp), "Trace_TableHeap", cfg) for i in range(sp)]
+    return sh
+
+
+def _table_mc(kind, tier):
+    return MC("MC_TableHeap", "MC_TableHeap_%s.cfg" % kind, workers=1, heap="2g", env={"HEAP_DEPTH": "2" if tier == "quick" else "3"},
+              note="table-object heap (%s): every operation sequence up to the depth; copies fresh, set/settol in place, queries pure" % kind)
 
 
 def plan_C03(tier, seed):
@@ -718,7 +735,7 @@ def _nt_c20(ev):
         return (ev["f"], ev["cls"], ev["variant"], tuple(ev["key"]))
     if ev["k"] == "step":
         o = ev["o"]
-        return ("step", o["t"], o["op"], o["dst"], o["l"], o["r"], o["k"], tuple(ev["sh"]))
+        return ("step", o["t"], o.get("op"), o["dst"], o["l"], o.get("r"), o["k"], tuple(ev["sh"]), json.dumps(ev.get("tab")))
     return (ev["k"], ev.get("f"), ev.get("rep"))
 
 
@@ -732,8 +749,10 @@ def plan_C20(tier, seed):
     sh += [Shard("suite_tests", drv_api.gen_testsuite, dict(kind="tests"), *T),
            Shard("suite_doctests", drv_api.gen_testsuite, dict(kind="doctests"), *T)]
     sh += _heap_shards("angle", tier, seed, 2) + _heap_shards("epoch", tier, seed, 1)
+    sh += _table_shards("interp", tier, seed) + _table_shards("fit", tier, seed)
     return dict(
-        mc=[MC("MC_ObjHeap", "MC_ObjHeap_angle.cfg", workers=1, heap="3g", env={"HEAP_DEPTH": "2"},
+        mc=[_table_mc("interp", tier), _table_mc("fit", tier),
+            MC("MC_ObjHeap", "MC_ObjHeap_angle.cfg", workers=1, heap="3g", env={"HEAP_DEPTH": "2"},
                note="object heap: operators allocate, in-place forms rebind, only documented mutators write (depth 2, all sequences)"),
             MC("MC_ObjHeap", "MC_ObjHeap_epoch.cfg", workers=1, heap="3g", env={"HEAP_DEPTH": "2"}, note="same for Epoch")],
         shards=sh, level="model_checking", exhaustive=False, nontrivial=_nt_c20,
@@ -745,7 +764,8 @@ def plan_C20(tier, seed):
              "attributes before/after, of the result, its finiteness and the outcome class. TLC keeps the module-state digest and a "
              "memo (call signature -> outcome) as specification state and checks frame conditions, determinism across the history, "
              "totality, finiteness and clean rejection at every step. Copy-constructor scenarios (Angle, Epoch, Interpolation, "
-             "CurveFitting) and TLC-generated heap behaviours for Angle/Epoch are validated as well.",
+             "CurveFitting) and TLC-generated heap behaviours for Angle/Epoch (value objects) and for Interpolation/CurveFitting "
+             "(table objects: new / alias / copy / set / set_tolerance / queries) are validated as well.",
         assumptions=["an ill-typed argument that is accepted and yields a finite value of the usual shape is not a violation (truthy flags); "
                      "returning None/NaN or raising anything but TypeError/ValueError is",
                      "Epoch.utc2local (host clock) is excluded from the determinism clause; documented mutators may change self",
